@@ -73,6 +73,16 @@ Begin(o) ==
     /\ checkDone' = FALSE /\ status' = "none" /\ fs0' = fs
     /\ UNCHANGED <<kind, fs, nruns>>
 
+\* process(overwrite) called again on the SAME converter object (overwrite is an argument of process(), the other options
+\* belong to the object): check_completed is not reset, the cursor is
+BeginReuse(ow) ==
+    /\ rpc = "idle" /\ nruns > 0 /\ nruns < MaxRuns /\ OrigPresent(fs) /\ status \in {"1", "0", "crashed"}
+    /\ opts' = [opts EXCEPT !.ow = ow] /\ rpc' = "prepare" /\ widx' = 0
+    /\ cs' = 0 /\ cph' = (IF kind = "NP21" THEN "lf" ELSE "ap")
+    /\ csub' = (IF kind = "NP21" /\ fs["orig"] = "C" THEN "orig" ELSE IF ow THEN "stale" ELSE "comp")
+    /\ status' = "none" /\ fs0' = fs
+    /\ UNCHANGED <<kind, fs, nruns, checkDone>>
+
 \* _prepare_files_NP24 / _NP21 (and the early exits of process())
 Prepare ==
     /\ rpc = "prepare"
@@ -180,7 +190,7 @@ Crash == /\ rpc \notin {"idle"} /\ fs' = fs /\ Finish("crashed")
 
 Step == Prepare \/ Window \/ Close \/ MetaAP \/ MetaLF \/ Check \/ CheckClosing \/ CompressOrig
         \/ CompressOrigRm \/ UnlinkStale \/ UnlinkStaleRaises \/ CompressFile \/ UnlinkBin \/ Delete \/ Return
-Next == (\E o \in Opts : Begin(o)) \/ Step \/ Crash
+Next == (\E o \in Opts : Begin(o)) \/ (\E ow \in BOOLEAN : BeginReuse(ow)) \/ Step \/ Crash
 Spec == Init /\ [][Next]_vars
 
 -----------------------------------------------------------------------------
